@@ -75,7 +75,7 @@ SHARDS = {"quick": 4, "thorough": 16}
 BUDGET_S = {"quick": 55, "thorough": 560}
 DECIDING = ["anom_range", "anom_inverse", "anom_reference", "kepler_residual", "kepler_solve", "predicates",
             "coe_forward", "coe_ranges", "coe_values", "coe_singular_form", "coe_roundtrip", "coe_class_state",
-            "eqe_forward", "eqe_values", "eqe_roundtrip", "eqe2coe_state", "coe2eqe_state",
+            "eqe_forward", "eqe_values", "eqe_roundtrip", "eqe_other_mu", "eqe2coe_state", "coe2eqe_state",
             "cfg_eci", "cfg_coe_full", "cfg_coe_ecc_equatorial", "cfg_coe_circ_inclined", "cfg_coe_circ_equatorial",
             "cfg_eqe_direct", "cfg_eqe_retro"]
 MANIFEST = {
@@ -593,6 +593,22 @@ def chk_orbit(ctx, els):
             if ok2:
                 _cmp(ctx, "eqe_roundtrip", "eqe-roundtrip" + rs, _serr(xb, xr), (tq, _approx_tol(els, eq=False)),
                      f"eqe2eci(eci2eqe(x, retro={retro})) != x for {cls} orbit {els}", w2)
+            # another gravitational parameter: with mu' = s*mu the state (r, sqrt(s) v) has the same elements
+            if int(abs(nu) * 1e6) % 4 == 0:
+                from resonaate.physics.bodies.earth import Earth
+
+                sc = (0.5, 2.0, 1.001, 4902.800066 / 398600.4418)[int(abs(raan) * 1e6) % 4]
+                xsc = np.concatenate([np.asarray(xr, dtype=float)[:3], np.asarray(xr, dtype=float)[3:] * math.sqrt(sc)])
+                okm, qm = _call(ctx, "eci2eqe-other-mu" + rs, w2, eci2eqe, xsc, mu=Earth.mu * sc, retro=retro)
+                if okm:
+                    qm = tuple(float(v) for v in qm)
+                    dm = max(abs(qm[0] - q[0]) / sma / 1e2, abs(qm[1] - q[1]), abs(qm[2] - q[2]), abs(qm[3] - q[3]) / scale, abs(qm[4] - q[4]) / scale, kr.angdiff(qm[5], q[5]))
+                    _cmp(ctx, "eqe_other_mu", "eci2eqe-other-mu" + rs, dm, (tq, _approx_tol(els, eq=False)),
+                         f"eci2eqe((r, sqrt(s) v), mu = s*mu, retro={retro}) with s = {sc:.6g} gives {qm}, the Earth-mu elements of (r, v) are {q}", {**w2, "mu_scale": sc})
+                okm, xm = _call(ctx, "eqe2eci-other-mu" + rs, w2, eqe2eci, *q, mu=Earth.mu * sc, retro=retro)
+                if okm:
+                    _cmp(ctx, "eqe_other_mu", "eqe2eci-other-mu" + rs, _serr(np.concatenate([np.asarray(xm, dtype=float)[:3], np.asarray(xm, dtype=float)[3:] / math.sqrt(sc)]), xr), (tq, _approx_tol(els, eq=False)),
+                         f"eqe2eci(elements, mu = s*mu, retro={retro}) with s = {sc:.6g} is not (r, sqrt(s) v) of the Earth-mu state", {**w2, "mu_scale": sc})
             # EQE -> COE -> state
             ok2, c2 = _call(ctx, "eqe2coe" + rs, w2, eqe2coe, *q, retro=retro)
             if ok2:
